@@ -220,24 +220,45 @@ func coqArgs() []string {
 		"-w", "-notation-overridden,-deprecated-hint-without-locality"}
 }
 
-func modelPass1(trees []string, outDir string) ([]string, error) {
+func modelPass1(trees []string, pairs [][2]string, outDir string) ([]string, []bool, error) {
 	var b strings.Builder
-	b.WriteString("From GC Require Import Base Model_Regex Model_RegexSimplify.\n")
+	b.WriteString("From GC Require Import Base Model_Regex Model_RegexSimplify Proofs_RegexSimplify.\n")
 	b.WriteString("Definition trees : list sx := [\n")
 	b.WriteString(strings.Join(trees, ";\n"))
 	b.WriteString("\n].\nDefinition R := Eval vm_compute in map (fun t => str_bytes (simplify1 t)) trees.\nPrint R.\n")
+	b.WriteString("Definition pairs : list (sx * sx) := [\n")
+	for i, pr := range pairs {
+		if i > 0 {
+			b.WriteString(";\n")
+		}
+		b.WriteString("(" + pr[0] + ", " + pr[1] + ")")
+	}
+	b.WriteString("\n].\nDefinition CERT := Eval vm_compute in map (fun p => if same_meaning (fst p) (snd p) then 1%N else 0%N) pairs.\nPrint CERT.\n")
 	path := filepath.Join(outDir, "round1_c11.v")
 	common.WriteFile(path, b.String())
 	args := append([]string{"600", "coqc"}, coqArgs()...)
 	out, code, err := common.Run(700*time.Second, outDir, os.Environ(), "timeout", append(args, path)...)
 	if err != nil || code != 0 {
-		return nil, fmt.Errorf("coqc round 1 failed (%v, rc=%d): %s", err, code, tailStr(out, 800))
+		return nil, nil, fmt.Errorf("coqc round 1 failed (%v, rc=%d): %s", err, code, tailStr(out, 800))
 	}
 	i := strings.Index(out, "R =")
-	if i < 0 {
-		return nil, fmt.Errorf("round 1: no result: %s", tailStr(out, 400))
+	ci := strings.Index(out, "CERT =")
+	if i < 0 || ci < i {
+		return nil, nil, fmt.Errorf("round 1: no result: %s", tailStr(out, 400))
 	}
-	s := out[i+3:]
+	var cert []bool
+	for _, ch := range out[ci+6:] {
+		if ch == '0' || ch == '1' {
+			cert = append(cert, ch == '1')
+		}
+		if ch == ':' {
+			break
+		}
+	}
+	if len(cert) != len(pairs) {
+		return nil, nil, fmt.Errorf("round 1: %d certificates for %d pairs", len(cert), len(pairs))
+	}
+	s := out[i+3 : ci]
 	if j := strings.LastIndex(s, ":"); j >= 0 {
 		s = s[:j]
 	}
@@ -284,9 +305,9 @@ func modelPass1(trees []string, outDir string) ([]string, error) {
 		}
 	}
 	if len(res) != len(trees) {
-		return nil, fmt.Errorf("round 1: %d results for %d trees", len(res), len(trees))
+		return nil, nil, fmt.Errorf("round 1: %d results for %d trees", len(res), len(trees))
 	}
-	return res, nil
+	return res, cert, nil
 }
 
 func tailStr(s string, n int) string {
@@ -765,7 +786,21 @@ func Run(tier string, seed int64, outDir string) *common.Meta {
 			round1Idx = append(round1Idx, i)
 		}
 	}
-	pass1, err := modelPass1(round1, outDir)
+	// certificate pairs: (tree of the pattern, tree of the final rewrite as the real parser reads it)
+	var pairs [][2]string
+	var pairIdx []int
+	tree3 := make([]string, len(pats))
+	for i := range pats {
+		if rewrites[i] == "" || !parsed[i] {
+			continue
+		}
+		if t3, ok := parseTree(qp, rewrites[i]); ok {
+			tree3[i] = t3
+			pairs = append(pairs, [2]string{trees[i], t3})
+			pairIdx = append(pairIdx, i)
+		}
+	}
+	pass1, certs, err := modelPass1(round1, pairs, outDir)
 	if err != nil {
 		meta.TieBroken = append(meta.TieBroken, err.Error())
 		return meta
@@ -774,10 +809,20 @@ func Run(tier string, seed int64, outDir string) *common.Meta {
 	for k, i := range round1Idx {
 		c1[i] = pass1[k]
 	}
+	certified := make([]bool, len(pats))
+	nCert := 0
+	for k, i := range pairIdx {
+		certified[i] = certs[k]
+		if certs[k] {
+			nCert++
+		}
+	}
+	meta.Distribution["rewrites_certified_equivalent_by_kernel"] = nCert
 
 	// 4. simplifier cases
-	hdr := `From GC Require Import Base Model_Regex Model_RegexSimplify.
-Record case := { k_pat : string; k_tree : option sx; k_c1 : string; k_tree2 : option sx; k_obs : option string }.
+	hdr := `From GC Require Import Base Model_Regex Model_RegexSimplify Proofs_RegexSimplify.
+Record case := { k_pat : string; k_tree : option sx; k_c1 : string; k_tree2 : option sx; k_obs : option string;
+                 k_tree3 : option sx; k_cert : bool }.
 Definition ostr_eqb (a b : option string) : bool :=
   match a, b with Some x, Some y => String.eqb x y | None, None => true | _, _ => false end.
 Definition case_ok (k : case) : bool :=
@@ -789,6 +834,8 @@ Definition case_ok (k : case) : bool :=
       && String.eqb (pr_list (fst (walk_a t))) (simp_text t)            (* tree version prints the text version *)
       && Nat.eqb (snd (walk_a t)) (simp_score t)
       && ostr_eqb (simplify2 (k_pat k) t (fun s => if String.eqb s (k_c1 k) then k_tree2 k else None)) (k_obs k)
+      (* the certificate used with C11_same_meaning_sound: pattern tree vs tree of the final rewrite *)
+      && Bool.eqb (match k_tree3 k with Some t3 => same_meaning t t3 | None => false end) (k_cert k)
   end.
 Definition cases : list case := [
 `
@@ -814,8 +861,12 @@ Definition cases : list case := [
 			}
 		}
 		sh := i % shards
-		bodies[sh] = append(bodies[sh], fmt.Sprintf("  {| k_pat := %s; k_tree := %s; k_c1 := %s; k_tree2 := %s; k_obs := %s |}",
-			coqfmt.Str(p), t, coqfmt.Str(c1[i]), t2, obs))
+		t3 := "None"
+		if tree3[i] != "" {
+			t3 = "(Some " + tree3[i] + ")"
+		}
+		bodies[sh] = append(bodies[sh], fmt.Sprintf("  {| k_pat := %s; k_tree := %s; k_c1 := %s; k_tree2 := %s; k_obs := %s; k_tree3 := %s; k_cert := %s |}",
+			coqfmt.Str(p), t, coqfmt.Str(c1[i]), t2, obs, t3, coqfmt.Bool(certified[i])))
 		idx[sh] = append(idx[sh], fmt.Sprintf("%s: %q => %q", srcOf[i], p, rewrites[i]))
 		if rewrites[i] != "" && i%211 == 0 {
 			meta.AddSample(map[string]interface{}{"pattern": p, "rewrite": rewrites[i], "model_pass1": c1[i], "stream": srcOf[i]})
@@ -942,6 +993,7 @@ Definition cases : list case := [
 	}
 	subjectsTried := 0
 	failing := 0
+	uncertifiedClean := 0
 	classCount := map[string]int{}
 	shrunkPerClass := map[string]int{}
 	for i, p := range pats {
@@ -951,7 +1003,13 @@ Definition cases : list case := [
 		d, n := compareRegexps(p, rewrites[i], maxLen, budget, orng, nil)
 		subjectsTried += n
 		if d == nil {
+			if !certified[i] {
+				uncertifiedClean++
+			}
 			continue
+		}
+		if certified[i] {
+			meta.TieBroken = append(meta.TieBroken, fmt.Sprintf("the model certifies %q => %q as equivalent (kernel-evaluated certificate) but Go's regexp distinguishes them: %s", p, rewrites[i], describe(d)))
 		}
 		failing++
 		sp, srw, sd := r.shrink(p, d, maxLen, orng)
@@ -971,6 +1029,7 @@ Definition cases : list case := [
 	}
 	meta.Distribution["oracle_subjects_tried"] = subjectsTried
 	meta.Distribution["oracle_failing_rewrites"] = failing
+	meta.Distribution["rewrites_neither_certified_nor_refuted"] = uncertifiedClean
 	meta.Distribution["oracle_defect_classes"] = classCount
 	meta.Evaluations = len(pats) + semRuns + subjectsTried
 	meta.Distinct = nRewrites
